@@ -170,7 +170,7 @@ def main(argv):
             if d['tags']:
                 continue   # tagged for other properties only
             # untagged failure
-            if ov and pid in ov[1].get('props', []) and d['kind'] in ('overflow', 'bounds', 'div0', 'pre'):
+            if ov and pid in ov[1].get('props', []) and d['kind'] in ('overflow', 'bounds', 'div0', 'pre') and not d.get('user_pre'):
                 t = '%s.%s.%s.panic_free' % (pid, un, ov[0].replace('::', '.'))
                 obligations[t]['status'] = 'failed'
                 violations.append((t, un, d))
